@@ -356,6 +356,13 @@ func (env *SpecEnv) objVal(obj types.Object) (Val, bool) {
 		}
 		_ = srt
 	case *types.Var:
+		if sp := env.eng.ssaPkgs[o.Pkg().Path()]; sp != nil {
+			if gl, ok := sp.Members[o.Name()].(*ssa.Global); ok {
+				if r, ok := env.a.constGlobalVal(gl); ok {
+					return r, true
+				}
+			}
+		}
 		// package-level variable: its address constant, loaded in current state
 		n := "glob_" + sanitize(o.Pkg().Name()+"_"+o.Name())
 		g.decl("const "+n, fmt.Sprintf("(declare-const %s Int)", n))
@@ -597,8 +604,12 @@ func (env *SpecEnv) quant(x SQuant) Val {
 		binds = append(binds, fmt.Sprintf("(%s %s)", nm, srt))
 		n.vars[v.Name] = Val{S: nm, Sort: srt, T: t}
 		if t != nil {
-			if f := env.vc.g.rangeFact(t, nm); f != "true" {
-				facts = append(facts, f)
+			// only integer ranges restrict quantified variables; structural well-formedness of slices/interfaces is not
+			// demanded of the instantiating terms (heap contents are not known to satisfy it syntactically)
+			if _, isBasic := t.Underlying().(*types.Basic); isBasic {
+				if f := env.vc.g.rangeFact(t, nm); f != "true" {
+					facts = append(facts, f)
+				}
 			}
 		}
 	}
@@ -670,6 +681,15 @@ func (env *SpecEnv) call(x SCall) Val {
 		dk, ds, _, _, ks, _ := a.mapHeaps(env.st, mt)
 		srt := "(Array " + ks + " Bool)"
 		return Val{S: ite(eq(m.S, "0"), "((as const "+srt+") false)", sel(env.vc.getHeap(env.st, dk, ds), m.S)), Sort: srt}
+	case "rawdom":
+		// rawdom(m)[k]: domain array without the nil-map guard (usable in triggers)
+		m := arg(0)
+		mt, ok := m.T.Underlying().(*types.Map)
+		if !ok {
+			env.fail("rawdom of non-map")
+		}
+		dk, ds, _, _, ks, _ := a.mapHeaps(env.st, mt)
+		return Val{S: sel(env.vc.getHeap(env.st, dk, ds), m.S), Sort: "(Array " + ks + " Bool)"}
 	case "mapvals":
 		m := arg(0)
 		mt, ok := m.T.Underlying().(*types.Map)
@@ -733,6 +753,17 @@ func (env *SpecEnv) call(x SCall) Val {
 		g.decl("fn "+bx, fmt.Sprintf("(declare-fun %s (%s) Int)", bx, srt))
 		g.decl("fn un"+bx, fmt.Sprintf("(declare-fun un%s (Int) %s)", bx, srt))
 		return Val{S: app("un"+bx, "(ival "+v.S+")"), Sort: srt, T: t}
+	case "box":
+		// box(x): the interface payload a value of x's type gets when stored in an interface
+		v := arg(0)
+		if v.Sort == sInt {
+			return v
+		}
+		bx := "box_" + sanitize(v.Sort)
+		g.decl("fn "+bx, fmt.Sprintf("(declare-fun %s (%s) Int)", bx, v.Sort))
+		g.decl("fn un"+bx, fmt.Sprintf("(declare-fun un%s (Int) %s)", bx, v.Sort))
+		g.addAxiom("("+bx+" ", fmt.Sprintf("(forall ((x %s)) (! (= (un%s (%s x)) x) :pattern ((%s x))))", v.Sort, bx, bx, bx))
+		return Val{S: app(bx, v.S), Sort: sInt}
 	case "ref":
 		v := arg(0)
 		if v.Sort == sIface {
